@@ -72,14 +72,26 @@ def run(spec, rec):
         labels = bool(rng.random() < 0.6)
         ids = [str(rng.choice(["pop %d", "Pop_%d", "a b c %d", "YRI %d", "folded %d x", "two  spaces %d", "tab\there %d", " lead %d", "trail %d ", "x   y    %d"])) % i for i in range(ndim)] if labels else None
         corners = bool(rng.integers(2))
+        # the memory layout of the array behind a spectrum is not part of what is stored: Fortran-ordered input, and spectra
+        # that are strided views (what reorder_pops / transpose / swapaxes return), must write the same file
+        layout = str(rng.choice(["C", "C", "F", "view"])) if ndim >= 2 else "C"
+        if layout == "F":
+            data, mask = np.asfortranarray(data), np.asfortranarray(mask)
         fs = Spectrum(data, mask=mask, mask_corners=corners, pop_ids=ids)
         if folded:
             fs = fs.fold()
+        if layout == "view":
+            order = [int(v) for v in rng.permutation(ndim) + 1]
+            if order == sorted(order):
+                order = order[::-1]
+            fs = fs.reorder_pops(order) if not fs.folded else Spectrum(np.ma.getdata(fs).transpose(), mask=np.ma.getmaskarray(fs).transpose(),
+                                                                       mask_corners=False, data_folded=True, pop_ids=(fs.pop_ids[::-1] if fs.pop_ids else None))
+            shape = tuple(fs.shape)
         ncom = int(rng.integers(0, 6))
         comments = ["comment %d: %s" % (i, "x" * int(rng.integers(0, 30))) for i in range(ncom)]
         prec = int(rng.choice([16, 16, 17, 18, 20]))
         desc = {"shape": list(shape), "values": vk, "nmask": int(np.asarray(fs.mask).sum()), "folded": folded, "labels": ids,
-                "ncomments": ncom, "precision": prec, "corners": corners}
+                "ncomments": ncom, "precision": prec, "corners": corners, "layout": layout}
         if not rec.case("io%d-%d" % (spec["b"], ci), desc, nontrivial=(fs.size >= 2 and (labels or mask.any()))):
             continue
         rtol = 10.0 ** (1 - prec)
